@@ -11,6 +11,7 @@ def run(ck):
     decided = factors.r4_c_combiners(ck, P)
     factors.r9_simd_combiners(ck, P)
     factors.r10_composite_bodies(ck, P)
+    factors.r10s_scaled_scanlines(ck, P)
     floatmask.r5_float_mask(ck, P)
     floatmask.r6_c_mask(ck, P, decided or ())
     floatmask.r7_set_sat(ck, P)
